@@ -204,7 +204,7 @@ func PSyncContinue(c *core.Ctx, rule string) {
 	// definitions of the sent variable: the parameter, and +1 steps
 	var incs []ast.Node
 	okDefs := off == inOff
-	for _, o := range Origins(info, fn.Decl.Body, offID) {
+	for _, o := range Origins(info, fn.Decl, offID) {
 		switch {
 		case o.Zero:
 		case o.Op == token.INC:
